@@ -14,7 +14,8 @@ from . import sched as S
 def _work(args):
     mod, fn, case, prefix, bound, free_bound = args
     f = getattr(importlib.import_module(mod), fn)
-    pts, viol, obs = f(case, prefix)
+    from vf.runner import retry_env
+    pts, viol, obs = retry_env(f, case, prefix)
     kids = S.children(prefix[0], pts, bound, free_bound)
     return kids, viol, obs, len(pts), S.preemptions(pts)
 
